@@ -1315,7 +1315,24 @@ func runConsensusCase(idx int, cse *csCase, workroot string) ([]string, []Monito
 			rs := c.nodes[hn.idx].cs.GetRoundState()
 			where = append(where, fmt.Sprintf("node%d %d/%d/%d", hn.idx, rs.Height, rs.Round, rs.Step))
 		}
-		c.hit("no-progress-in-fair-suffix", fmt.Sprintf("target height %d not reached: %s", target, strings.Join(where, ", ")))
+		// finding F-12a has a recognisable shape: a node behind holds +2/3 precommits for a block in some
+		// round and is not in the commit step (it was pulled out of it by a later round)
+		sig := "no-progress-in-fair-suffix"
+		for _, hn := range honest {
+			rs := c.nodes[hn.idx].cs.GetRoundState()
+			if rs.Height >= target || rs.Step == pbft.RoundStepCommit || rs.Votes == nil {
+				continue
+			}
+			for r := int64(0); r <= rs.Round; r++ {
+				if pc := rs.Votes.Precommits(r); pc != nil {
+					if b, ok := pc.TwoThirdsMajority(); ok && len(b.Hash) > 0 {
+						sig = "no-progress-in-fair-suffix kind=commit-step-abandoned"
+						where = append(where, fmt.Sprintf("node%d holds +2/3 precommits for %x in round %d and is in step %d of round %d", hn.idx, b.Hash, r, rs.Step, rs.Round))
+					}
+				}
+			}
+		}
+		c.hit(sig, fmt.Sprintf("target height %d not reached: %s", target, strings.Join(where, ", ")))
 	}
 	if progress {
 		c.dist["fair-suffix=progress"]++
@@ -1469,7 +1486,7 @@ func consensusEngine(name string, sys bool, args []string) error {
 		var cases []*csCase
 		if c.Replay != "" {
 			var x csCase
-			if err := readJSON(c.Replay, &x); err != nil {
+			if err := readCase(c.Replay, &x); err != nil {
 				return err
 			}
 			cases = append(cases, &x)
